@@ -99,7 +99,7 @@ func isoKeyArg(c *Ctx, k *raKind, h interface{}, mk string) (string, []string) {
 
 func suiteIsolation(c *Ctx) {
 	c.rep.Rule = "case = 2-8 live Redis-backed structures of random kinds and parameters in one database, their update histories interleaved at random (creation, import-under-new-keys and re-attachment in between); each structure is compared step by step with its own solo run, and the keys changed by every operation with the model's key set of that structure; non-trivial = >= 3 structures with >= 2 kinds; distinct by (kinds, histories, interleaving)"
-	rounds := c.scale(25, 250)
+	rounds := c.scale(70, 400)
 	for r := 0; r < rounds; r++ {
 		isolationCase(c)
 	}
